@@ -249,15 +249,32 @@ class _SinkWalker:
         for nm in callee:
             m = self.methods.get(nm)
             if m is not None:
-                vars_ = []
-                walk(m, lambda n: vars_.append(n) if n.get("kind") == "VarDecl" else None)
-                if any(x.get("storageClass") == "static" and "mutex" in x.get("type", {}).get("qualType", "") for x in vars_):
+                if self._static_mutex_accessor(m):
                     found = True
         for r in refs:
-            if "mutex" in (r.get("type", {}) or {}).get("qualType", "") and r.get("kind") == "VarDecl":
+            if (r.get("type", {}) or {}).get("qualType", "") == "std::mutex" and r.get("kind") == "VarDecl":
                 found = True
         if not found:
             self.mutex_static = False
+
+    @staticmethod
+    def _static_mutex_accessor(m):
+        """the accessor is exactly `static std::mutex m; return m;` - one mutex object, initialised thread-safely by
+        the language (a pointer filled in on first use, a member of something else, ... is not recognised)"""
+        body = [n for n in m.get("inner", []) if n.get("kind") == "CompoundStmt"]
+        if len(body) != 1:
+            return False
+        stmts = body[0].get("inner", [])
+        if len(stmts) != 2 or stmts[0].get("kind") != "DeclStmt" or stmts[1].get("kind") != "ReturnStmt":
+            return False
+        decls = stmts[0].get("inner", [])
+        if len(decls) != 1 or decls[0].get("kind") != "VarDecl" or decls[0].get("storageClass") != "static" or \
+                decls[0].get("type", {}).get("qualType", "") != "std::mutex":
+            return False
+        kinds, refs = [], []
+        walk(stmts[1], lambda n: kinds.append(n.get("kind")))
+        walk(stmts[1], lambda n: refs.append((n.get("referencedDecl") or {}).get("id")) if n.get("kind") == "DeclRefExpr" else None)
+        return set(kinds) <= {"ReturnStmt", "DeclRefExpr", "ImplicitCastExpr"} and refs == [decls[0].get("id")]
 
     def block(self, stmts, is_body):
         declared = []
